@@ -262,8 +262,11 @@ def applyInputPluginsO {ε : Type} (plugins : List (Json → Outcome (Except ε 
     Outcome (Except (PipeErr ε) (List Json)) :=
   if query.isObject then
     match applyOpsO plugins (.arr [query]) with
-    | .ok (.ok s) => .ok (jsonArrayFlatten s)
-    | .ok (.error e) => .ok (.error e)
+    | .ok (.ok s) =>
+      match jsonArrayFlatten s with
+      | .ok qs => .ok (.ok qs)
+      | .error e => .ok (.error (GridSearch.withRequest query e))
+    | .ok (.error e) => .ok (.error (GridSearch.withRequest query e))
     | .panic s => .panic s
     | .diverges => .diverges
   else .ok (.error (.notObject query))
@@ -278,18 +281,26 @@ def errorResponse : PipeErr PErr → Json
   | .invariant r => .obj [("request", r), ("error", .str invariantKind)]
   | .notObject r => .obj [("request", r), ("error", .str "UnexpectedQueryStructure")]
 
+/-- `with_request` on the packaged response: the test `error["request"] == placeholder` sees what a plugin left
+in the query when it failed (`PErr.left`), which the generic `GridSearch.withRequest` cannot -/
+def fixRequest (query : Json) (resp : Json) : Json :=
+  match resp with
+  | .obj [("request", r), ("error", k)] =>
+    if GridSearch.isNoRequest r then .obj [("request", query), ("error", k)] else resp
+  | _ => resp
+
 /-- input processing of one query: the expanded queries, or its error response -/
 def prepO (plugins : List Plugin) (q : Json) : Outcome (Except Json (List Json)) :=
   match applyInputPluginsO (plugins.map processO) q with
   | .ok (.ok qs) => .ok (.ok qs)
-  | .ok (.error e) => .ok (.error (errorResponse e))
+  | .ok (.error e) => .ok (.error (fixRequest q (errorResponse e)))
   | .panic s => .panic s
   | .diverges => .diverges
 
 def prepT (plugins : List Plugin) (q : Json) : Except Json (List Json) :=
   match GridSearch.applyInputPlugins (plugins.map processT) q with
   | .ok qs => .ok qs
-  | .error e => .error (errorResponse e)
+  | .error e => .error (fixRequest q (errorResponse e))
 
 /-! ### Chunking -/
 
@@ -491,7 +502,7 @@ its siblings go on; an array result is replaced by its elements; a final item th
 its own error response.  `.ok e`: an expanded query to run, `.error r`: an error response. -/
 def itemwise : List (Json → Except PErr Json) → List Json → List (Except Json Json)
   | [], items =>
-    items.map (fun q => if q.isObject then .ok q else .error (errorResponse (.invariant noRequest)))
+    items.map (fun q => if q.isObject then .ok q else .error (errorResponse (.invariant q)))
   | op :: ops, items =>
     items.flatMap (fun q =>
       match op q with
